@@ -284,6 +284,72 @@ def mk_reply_while_busy(reach):
     return h
 
 
+def mk_mid_spaces(reach):
+    """message IDs are per direction and deduplication is for requests only: an empty message (ACK / Reset / ping) never makes
+    a later request with the same ID a duplicate, and a ping is answered with a Reset even when its ID was used by a request"""
+    from vf import stack
+    from vf.simloop import SimLoop
+    from aiocoap.message import Message
+    from aiocoap import resource
+    from aiocoap.numbers.types import CON, NON, ACK, RST
+    from aiocoap.numbers.codes import GET, EMPTY
+    stack.configure(max_retransmit=1)
+
+    class Hello(resource.Resource):
+        def __init__(self):
+            super().__init__()
+            self.calls = 0
+
+        async def render_get(self, request):
+            self.calls += 1
+            return Message(payload=b"hi")
+
+    def h(first: int, t2: int, gap: int) -> None:
+        assert 0 <= first <= 3 and 0 <= t2 <= 1 and 0 <= gap <= 1000
+        with SimLoop() as loop:
+            res = Hello()
+            site = resource.Site()
+            site.add_resource(["h"], res)
+            S = stack.StackS(loop, site)
+            M = 4321
+            if first == 0:
+                # our own CON request is acknowledged by the peer with an empty ACK carrying ID M (our numbering)
+                req = Message(code=GET, uri_path=["x"], _mtype=CON)
+                req.remote = S.remote(stack.R0)
+                S.ctx.request(req, handle_blockwise=False)
+                loop.run_ready()
+                M = S.out()[0].mid
+                S.deliver(Message(code=EMPTY, _mtype=ACK, _mid=M).encode(), stack.R0)
+            elif first == 1:
+                S.deliver(Message(code=EMPTY, _mtype=RST, _mid=M).encode(), stack.R0)          # stray Reset
+            elif first == 2:
+                S.deliver(Message(code=EMPTY, _mtype=CON, _mid=M).encode(), stack.R0)          # ping
+                assert [(o.mtype, o.mid) for o in S.out()] == [(RST, M)]
+            else:
+                S.deliver(Message(code=GET, _mtype=CON, _mid=M, _token=b"\x01", uri_path=["h"]).encode(), stack.R0)   # a request
+                assert res.calls == 1
+            loop.advance(gap)
+            n0 = len(S.tr.sent)
+            calls0 = res.calls
+            if first == 3:
+                # ping that reuses the request's ID: pings are not deduplicated -- Reset, not the stored response
+                S.deliver(Message(code=EMPTY, _mtype=CON, _mid=M).encode(), stack.R0)
+                new = [Message.decode(d) for (d, a, tm) in S.tr.sent[n0:]]
+                assert [(o.mtype, o.mid, int(o.code)) for o in new] == [(RST, M, 0)], "an empty confirmable message is answered with a Reset"
+                assert res.calls == calls0
+            else:
+                # the peer's next request happens to carry ID M in the peer's own numbering: it is a new request
+                S.deliver(Message(code=GET, _mtype=pick([CON, NON], t2), _mid=M, _token=b"\x02", uri_path=["h"]).encode(), stack.R0)
+                new = [Message.decode(d) for (d, a, tm) in S.tr.sent[n0:]]
+                assert res.calls == calls0 + 1, "request dropped as a duplicate of an empty message"
+                assert [(o.mtype, int(o.code), o.token) for o in new] == [(ACK if t2 == 0 else NON, 69, b"\x02")]
+            for hnd in list(loop.pending_timers()):
+                hnd.cancel()
+            assert loop.exceptions == []
+        assert not reach, "reach"
+    return h
+
+
 def mk_codes(reach):
     from aiocoap.numbers.codes import Code
     for i in range(256):
@@ -313,5 +379,8 @@ def obligations(tier):
     obs.append(Obligation("reply-while-exchange-open", mk_reply_while_busy, 200 if q else 600, functions=FUNCS + ["MessageManager._continue_backlog"],
                           symbolic={"open exchange": "server's separate CON response / client's own CON request", "type of the new request": "CON / NON",
                                     "arrival": "[0, 1500] ticks after the exchange opened", "handler": "ready at once / after 150 ticks"}))
+    obs.append(Obligation("message-id-spaces", mk_mid_spaces, 200 if q else 600, functions=FUNCS + ["MessageManager._deduplicate_message"],
+                          symbolic={"first": "empty ACK for our own CON / stray Reset / ping / request, all with message ID M", "then": "request (CON / NON) or ping with the same ID",
+                                    "gap": "[0, 1000] ticks"}))
     obs.append(Obligation("code-classes", mk_codes, 200, functions=["numbers.codes.Code.*"], symbolic={"code": "0..255"}))
     return obs
